@@ -1,14 +1,23 @@
 import Juniper.Proofs.PQOps
+import Juniper.Spec.Deque
 /-!
-# The heap iterator: generation-counter invariant
+# The heap iterator: generation-counter invariant (heap half of C15)
 
 `Ev` is one step of a history seen by an iterator: a `Next` call or a call on the container.
-`run` collects what the `Next` calls return, up to and including the first `panic` / `done`.
+`run` is total: it collects what **every** `Next` call of the history returns (also those after a
+`panic` or after exhaustion), as observations `Spec.Deque.Obs` — the vocabulary shared with the deque
+half, so that both halves are stated with the same `SnapshotOrPanic`.
+
+The regenerated facts enter every lemma here as explicit hypotheses (`genFacts = true`,
+`iterFacts = true`, `xFacts = true`, `pqIterateMapsInnerToKey = true`); the property theorems of
+`Props/C15Heap` discharge them by `decide` inside their proofs.
 -/
 set_option linter.unusedSimpArgs false
 set_option linter.unusedVariables false
+set_option linter.unusedSectionVars false
 namespace Juniper.Proofs.HeapIter
 open Juniper.Gen.Heap Juniper.Model.Heap Juniper.Spec.Heap Juniper.Proofs.Heap
+open Juniper.Spec.Deque (Obs SnapshotOrPanic)
 
 variable {α : Type}
 
@@ -19,8 +28,18 @@ def genFacts : Bool := pushBumpsGen && popBumpsGen && removeAtBumpsGen && update
 def iterFacts : Bool :=
   iterCapturesGen && iterCapturesSlice && iterPanics && decide (iterInitGen = -1)
 
+/-- the bodies of `xheap.Heap.Push/Pop/Grow/Shrink/Iterate` are exactly the forwarding statements -/
+def xFacts : Bool :=
+  xPushForwards && xPopForwards && xGrowForwards && xShrinkForwards && xIterateForwards
+
 theorem iterFresh_eq (g : Int) : iterFresh g = decide (g = -1) := by simp [iterFresh]
 theorem iterModified_eq (g g' : Int) : iterModified g g' = !decide (g = g') := by simp [iterModified]
+
+/-- one `Next` result as an observation -/
+def toObs : IterOut α → Obs α
+  | .panic => .panic
+  | .done => .done
+  | .item x => .item x
 
 inductive Ev (α : Type) where
   | next
@@ -30,6 +49,10 @@ inductive Ev (α : Type) where
   | updateAt (i : Nat) (x : α)
   | grow
   | shrink
+
+def Ev.isNext : Ev α → Bool
+  | .next => true
+  | _ => false
 
 /-- the container after one call (a panicking call leaves it unchanged) -/
 def applyEv (less : α → α → Bool) (h : Heap α) : Ev α → Heap α
@@ -47,13 +70,10 @@ def applyEv (less : α → α → Bool) (h : Heap α) : Ev α → Heap α
   | .grow => Juniper.Model.Heap.grow h
   | .shrink => Juniper.Model.Heap.shrink h
 
-/-- results of the `Next` calls of a history, up to and including the first `panic` / `done` -/
-def run (less : α → α → Bool) : Heap α → Iter → List (Ev α) → List (IterOut α)
+/-- what **every** `Next` call of a history returns, in order -/
+def run (less : α → α → Bool) : Heap α → Iter → List (Ev α) → List (Obs α)
   | _, _, [] => []
-  | h, it, .next :: es =>
-    match iterNext h it with
-    | (it', .item x) => .item x :: run less h it' es
-    | (_, o) => [o]
+  | h, it, .next :: es => toObs (iterNext h it).2 :: run less h (iterNext h it).1 es
   | h, it, e :: es => run less (applyEv less h e) it es
 
 /-- the contents at the iterator's first `Next` -/
@@ -61,6 +81,26 @@ def snapshot (less : α → α → Bool) : Heap α → List (Ev α) → List α
   | h, [] => h.a
   | h, .next :: _ => h.a
   | h, e :: es => snapshot less (applyEv less h e) es
+
+theorem run_next (less : α → α → Bool) (h : Heap α) (it : Iter) (es : List (Ev α)) :
+    run less h it (.next :: es) = toObs (iterNext h it).2 :: run less h (iterNext h it).1 es := by
+  simp only [run]
+
+theorem run_op (less : α → α → Bool) (h : Heap α) (it : Iter) {e : Ev α} (he : e.isNext = false)
+    (es : List (Ev α)) : run less h it (e :: es) = run less (applyEv less h e) it es := by
+  cases e <;> first | (cases he; done) | simp only [run]
+
+theorem snapshot_op (less : α → α → Bool) (h : Heap α) {e : Ev α} (he : e.isNext = false)
+    (es : List (Ev α)) : snapshot less h (e :: es) = snapshot less (applyEv less h e) es := by
+  cases e <;> first | (cases he; done) | simp only [snapshot]
+
+/-- one observation per `Next` call: nothing is dropped -/
+theorem run_length (less : α → α → Bool) (evs : List (Ev α)) (h : Heap α) (it : Iter) :
+    (run less h it evs).length = (evs.filter Ev.isNext).length := by
+  induction evs generalizing h it with
+  | nil => rfl
+  | cons e es ih =>
+    cases e <;> simp [run, Ev.isNext, ih, List.filter_cons]
 
 theorem applyEv_gen (less : α → α → Bool) (h : Heap α) (e : Ev α) (hf : genFacts = true) :
     h.gen ≤ (applyEv less h e).gen ∧ ((applyEv less h e).gen = h.gen → (applyEv less h e).a = h.a) := by
@@ -70,7 +110,8 @@ theorem applyEv_gen (less : α → α → Bool) (h : Heap α) (e : Ev α) (hf : 
   | next => simp [applyEv]
   | push x =>
     simp only [applyEv]
-    rw [push_gen less h x h1]
+    rw [push_gen less h x, h1]
+    simp only [bump, if_true]
     exact ⟨by omega, fun h => by omega⟩
   | pop =>
     simp only [applyEv]
@@ -78,8 +119,8 @@ theorem applyEv_gen (less : α → α → Bool) (h : Heap α) (e : Ev α) (hf : 
     | none => simp
     | some r =>
       obtain ⟨h', x, n⟩ := r
-      obtain ⟨_, _, _, _, hg, _⟩ := pop_shape hp h2
-      simp only [hg]
+      obtain ⟨_, _, _, _, hg, _⟩ := pop_shape hp
+      simp only [hg, h2, bump, if_true]
       exact ⟨by omega, fun h => by omega⟩
   | removeAt i =>
     simp only [applyEv]
@@ -87,8 +128,8 @@ theorem applyEv_gen (less : α → α → Bool) (h : Heap α) (e : Ev α) (hf : 
     | none => simp
     | some r =>
       obtain ⟨h', n⟩ := r
-      obtain ⟨_, _, _, hg, _⟩ := removeAt_shape hp h3
-      simp only [hg]
+      obtain ⟨_, _, _, hg, _⟩ := removeAt_shape hp
+      simp only [hg, h3, bump, if_true]
       exact ⟨by omega, fun h => by omega⟩
   | updateAt i x =>
     simp only [applyEv]
@@ -106,6 +147,49 @@ theorem applyEv_gen (less : α → α → Bool) (h : Heap α) (e : Ev α) (hf : 
     simp only [applyEv, Juniper.Model.Heap.shrink, bump]
     split <;> (refine ⟨by omega, ?_⟩; simp)
 
+/-- a call that adds, removes or replaces an element (and does not itself panic) -/
+def Mutates (h : Heap α) : Ev α → Prop
+  | .push _ => True
+  | .pop => h.a ≠ []
+  | .removeAt i => i < h.a.length
+  | .updateAt i _ => i < h.a.length
+  | _ => False
+
+theorem Mutates.not_next {h : Heap α} {e : Ev α} (he : Mutates h e) : e.isNext = false := by
+  cases e <;> first | rfl | cases he
+
+/-- a mutating call strictly raises the generation -/
+theorem applyEv_gen_mutates (less : α → α → Bool) (h : Heap α) (e : Ev α) (he : Mutates h e)
+    (hf : genFacts = true) : (applyEv less h e).gen = h.gen + 1 := by
+  simp only [genFacts, Bool.and_eq_true] at hf
+  obtain ⟨⟨⟨h1, h2⟩, h3⟩, h4⟩ := hf
+  cases e with
+  | next => cases he
+  | grow => cases he
+  | shrink => cases he
+  | push x => simp only [applyEv]; rw [push_gen less h x, h1]; rfl
+  | pop =>
+    simp only [applyEv]
+    cases hp : pop less h with
+    | none => exact absurd ((pop_none_iff less h).mp hp) he
+    | some r =>
+      obtain ⟨h', x, n⟩ := r; obtain ⟨_, _, _, _, hg, _⟩ := pop_shape hp
+      simp only [hg, h2, bump, if_true]
+  | removeAt i =>
+    simp only [applyEv]
+    cases hp : removeAt less h i with
+    | none => exact absurd he ((removeAt_none_iff less h i).mp hp)
+    | some r =>
+      obtain ⟨h', n⟩ := r; obtain ⟨_, _, _, hg, _⟩ := removeAt_shape hp
+      simp only [hg, h3, bump, if_true]
+  | updateAt i x =>
+    simp only [applyEv]
+    cases hp : updateAt less h i x with
+    | none => exact absurd he ((updateAt_none_iff less h i x).mp hp)
+    | some r =>
+      obtain ⟨h', n⟩ := r; obtain ⟨_, hg, _, _⟩ := updateAt_shape hp
+      simp only [hg, h4, bump, if_true]
+
 /-- what a started iterator returns -/
 theorem iterNext_started {h : Heap α} {it : Iter} (hs : it.gen ≠ -1) (hf : iterFacts = true) :
     iterNext h it = if it.gen = h.gen then iterStep h it else (it, .panic) := by
@@ -121,98 +205,454 @@ theorem iterNext_fresh {h : Heap α} (hf : iterFacts = true) :
   obtain ⟨⟨⟨h1, h2⟩, _⟩, h4⟩ := hf
   simp [iterNext, iterate, iterFresh_eq, h4, h1, h2]
 
-/-- the possible endings of the `Next` results -/
-inductive Tail (α : Type) : List (IterOut α) → Bool → Prop where
-  | open_ : Tail α [] false            -- the history ended first
-  | panic : Tail α [.panic] false
-  | done : Tail α [.done] true         -- only allowed after the whole snapshot
+/-- the first `Next` of a fresh iterator = a `Next` of the iterator that has just captured -/
+theorem run_fresh_first (less : α → α → Bool) (hif : iterFacts = true) (h : Heap α) (h0 : 0 ≤ h.gen)
+    (es : List (Ev α)) :
+    run less h iterate (.next :: es) =
+      run less h { gen := h.gen, pos := 0, len := h.a.length } (.next :: es) := by
+  simp only [run]
+  rw [iterNext_fresh hif, iterNext_started (by simp; omega) hif]
+  simp
 
+/-! ## a stale iterator keeps panicking -/
+
+theorem stale_run (less : α → α → Bool) (hgf : genFacts = true) (hif : iterFacts = true)
+    (evs : List (Ev α)) (h : Heap α) (it : Iter) (hs : it.gen ≠ -1) (hg : it.gen < h.gen) :
+    ∀ o ∈ run less h it evs, o = Obs.panic := by
+  induction evs generalizing h with
+  | nil => intro o ho; simp [run] at ho
+  | cons e es ih =>
+    by_cases hn : e.isNext = true
+    · cases e <;> first | cases hn | skip
+      rw [run_next, iterNext_started hs hif, if_neg (by omega)]
+      intro o ho
+      rcases List.mem_cons.mp ho with ho | ho
+      · exact ho
+      · exact ih h hg o ho
+    · have hn' : e.isNext = false := by simpa using hn
+      rw [run_op less h it hn']
+      exact ih _ (by have := (applyEv_gen less h e hgf).1; omega)
+
+theorem snapshotOrPanic_of_all_panic (s : List α) (obs : List (Obs α))
+    (h : ∀ o ∈ obs, o = .panic) : SnapshotOrPanic s obs := by
+  cases obs with
+  | nil => trivial
+  | cons o r =>
+    have ho := h o (by simp)
+    subst ho
+    intro o' ho'; exact h o' (by simp [ho'])
+
+/-! ## snapshot or panic, whole history -/
+
+/-- A started iterator that has yielded `it.pos` elements of the snapshot `snap`, observed through
+any further history. Invariant: the heap's generation is at least the iterator's, and while they are
+equal the array is the snapshot. -/
 theorem run_started (less : α → α → Bool) (snap : List α) (hgf : genFacts = true) (hif : iterFacts = true)
     (evs : List (Ev α)) (h : Heap α) (it : Iter) (hs : it.gen ≠ -1) (hl : it.len = snap.length)
     (hp : it.pos ≤ it.len) (hg : it.gen ≤ h.gen) (ha : h.gen = it.gen → h.a = snap) :
-    ∃ k tl fin, it.pos ≤ k ∧ k ≤ snap.length ∧ Tail α tl fin ∧ (fin = true → k = snap.length) ∧
-      run less h it evs = ((snap.drop it.pos).take (k - it.pos)).map (fun x => IterOut.item (some x)) ++ tl := by
+    SnapshotOrPanic (snap.drop it.pos) (run less h it evs) := by
   induction evs generalizing h it with
-  | nil => exact ⟨it.pos, [], false, Nat.le_refl _, by omega, .open_, by simp, by simp [run]⟩
+  | nil => trivial
   | cons e es ih =>
-    cases e with
-    | next =>
-      simp only [run]
-      rw [iterNext_started hs hif]
+    by_cases hn : e.isNext = true
+    · cases e <;> first | cases hn | skip
+      rw [run_next, iterNext_started hs hif]
       by_cases hgen : it.gen = h.gen
       · rw [if_pos hgen]
         simp only [iterStep]
         have hsnap := ha hgen.symm
         by_cases hpos : it.pos < it.len
         · simp only [hpos, if_true]
-          have hx : h.a[it.pos]? = some (snap[it.pos]'(by omega)) := by
-            rw [hsnap]; simp [List.getElem?_eq_getElem (by omega : it.pos < snap.length)]
-          obtain ⟨k, tl, fin, hk1, hk2, ht, hfin, hrun⟩ :=
-            ih h { it with pos := it.pos + 1 } hs hl (by simp; omega) hg ha
-          have hk1' : it.pos + 1 ≤ k := hk1
-          have hrun' : run less h { it with pos := it.pos + 1 } es =
-              ((snap.drop (it.pos + 1)).take (k - (it.pos + 1))).map (fun x => IterOut.item (some x)) ++ tl := hrun
-          refine ⟨k, tl, fin, by omega, hk2, ht, hfin, ?_⟩
-          rw [hx, hrun']
-          have : (snap.drop it.pos).take (k - it.pos) =
-              snap[it.pos]'(by omega) :: (snap.drop (it.pos + 1)).take (k - (it.pos + 1)) := by
-            have e1 : k - it.pos = (k - (it.pos + 1)) + 1 := by omega
-            rw [e1, List.drop_eq_getElem_cons (by omega : it.pos < snap.length), List.take_succ_cons]
-          rw [this]; simp
-        · simp only [hpos, if_false]
-          refine ⟨it.pos, [.done], true, Nat.le_refl _, by omega, .done, fun _ => by omega, by simp⟩
+          have hlt : it.pos < snap.length := by omega
+          have hx : h.a[it.pos]? = some (snap[it.pos]'hlt) := by
+            rw [hsnap]; simp [List.getElem?_eq_getElem hlt]
+          have := ih h { it with pos := it.pos + 1 } hs hl (by simp; omega) hg ha
+          simp only [toObs, hx]
+          exact ⟨snap[it.pos], snap.drop (it.pos + 1), List.drop_eq_getElem_cons hlt, rfl, this⟩
+        · simp only [hpos, if_false, toObs]
+          have hnil : snap.drop it.pos = [] := List.drop_eq_nil_of_le (by omega)
+          have := ih h it hs hl hp hg ha
+          rw [hnil] at this ⊢
+          exact ⟨rfl, this⟩
       · rw [if_neg hgen]
-        exact ⟨it.pos, [.panic], false, Nat.le_refl _, by omega, .panic, by simp, by simp⟩
-    | push x =>
-      obtain ⟨g1, g2⟩ := applyEv_gen less h (.push x) hgf
-      exact ih _ it hs hl hp (by omega) (fun e => by rw [g2 (by omega)]; exact ha (by omega))
-    | pop =>
-      obtain ⟨g1, g2⟩ := applyEv_gen less h .pop hgf
-      exact ih _ it hs hl hp (by omega) (fun e => by rw [g2 (by omega)]; exact ha (by omega))
-    | removeAt i =>
-      obtain ⟨g1, g2⟩ := applyEv_gen less h (.removeAt i) hgf
-      exact ih _ it hs hl hp (by omega) (fun e => by rw [g2 (by omega)]; exact ha (by omega))
-    | updateAt i x =>
-      obtain ⟨g1, g2⟩ := applyEv_gen less h (.updateAt i x) hgf
-      exact ih _ it hs hl hp (by omega) (fun e => by rw [g2 (by omega)]; exact ha (by omega))
-    | grow =>
-      obtain ⟨g1, g2⟩ := applyEv_gen less h .grow hgf
-      exact ih _ it hs hl hp (by omega) (fun e => by rw [g2 (by omega)]; exact ha (by omega))
-    | shrink =>
-      obtain ⟨g1, g2⟩ := applyEv_gen less h .shrink hgf
+        simp only [toObs]
+        exact stale_run less hgf hif es h it hs (by omega)
+    · have hn' : e.isNext = false := by simpa using hn
+      rw [run_op less h it hn']
+      obtain ⟨g1, g2⟩ := applyEv_gen less h e hgf
       exact ih _ it hs hl hp (by omega) (fun e => by rw [g2 (by omega)]; exact ha (by omega))
 
 theorem applyEv_gen_nonneg (less : α → α → Bool) (h : Heap α) (e : Ev α) (hf : genFacts = true)
     (h0 : 0 ≤ h.gen) : 0 ≤ (applyEv less h e).gen := by
   have := (applyEv_gen less h e hf).1; omega
 
+/-- A fresh iterator, any history. -/
 theorem run_fresh (less : α → α → Bool) (hgf : genFacts = true) (hif : iterFacts = true)
     (evs : List (Ev α)) (h : Heap α) (h0 : 0 ≤ h.gen) :
-    ∃ k tl fin, k ≤ (snapshot less h evs).length ∧ Tail α tl fin ∧
-      (fin = true → k = (snapshot less h evs).length) ∧
-      run less h iterate evs = ((snapshot less h evs).take k).map (fun x => IterOut.item (some x)) ++ tl := by
+    SnapshotOrPanic (snapshot less h evs) (run less h iterate evs) := by
   induction evs generalizing h with
-  | nil => exact ⟨0, [], false, Nat.zero_le _, .open_, by simp, by simp [run]⟩
+  | nil => trivial
   | cons e es ih =>
-    cases e with
-    | next =>
+    by_cases hn : e.isNext = true
+    · cases e <;> first | cases hn | skip
       -- the first Next: capture, then behave as a started iterator at position 0
+      rw [run_fresh_first less hif h h0]
       have key := run_started less h.a hgf hif (.next :: es) h { gen := h.gen, pos := 0, len := h.a.length }
         (by simp; omega) rfl (by simp) (by simp) (fun _ => rfl)
-      obtain ⟨k, tl, fin, _, hk2, ht, hfin, hrun⟩ := key
-      refine ⟨k, tl, fin, by simpa [snapshot] using hk2, ht, by simpa [snapshot] using hfin, ?_⟩
-      simp only [snapshot]
-      have e1 : run less h iterate (.next :: es) =
-          run less h { gen := h.gen, pos := 0, len := h.a.length } (.next :: es) := by
-        simp only [run]
-        rw [iterNext_fresh hif, iterNext_started (by simp; omega) hif]
-        simp
-      rw [e1, hrun]; simp
-    | push x => simpa [run, snapshot] using ih _ (applyEv_gen_nonneg less h (.push x) hgf h0)
-    | pop => simpa [run, snapshot] using ih _ (applyEv_gen_nonneg less h .pop hgf h0)
-    | removeAt i => simpa [run, snapshot] using ih _ (applyEv_gen_nonneg less h (.removeAt i) hgf h0)
-    | updateAt i x => simpa [run, snapshot] using ih _ (applyEv_gen_nonneg less h (.updateAt i x) hgf h0)
-    | grow => simpa [run, snapshot] using ih _ (applyEv_gen_nonneg less h .grow hgf h0)
-    | shrink => simpa [run, snapshot] using ih _ (applyEv_gen_nonneg less h .shrink hgf h0)
+      simpa [snapshot] using key
+    · have hn' : e.isNext = false := by simpa using hn
+      rw [run_op less h _ hn', snapshot_op less h hn']
+      exact ih _ (applyEv_gen_nonneg less h e hgf h0)
+
+/-! ## unchanged heap: `n` consecutive `Next` calls -/
+
+/-- the iterator after `n` consecutive `Next` calls on `h` -/
+def nextsIt (h : Heap α) : Nat → Iter → Iter
+  | 0, it => it
+  | n + 1, it => nextsIt h n (iterNext h it).1
+
+theorem run_nexts_append (less : α → α → Bool) (h : Heap α) (n : Nat) (it : Iter) (rest : List (Ev α)) :
+    run less h it (List.replicate n Ev.next ++ rest) =
+      run less h it (List.replicate n Ev.next) ++ run less h (nextsIt h n it) rest := by
+  induction n generalizing it with
+  | zero => simp [run, nextsIt]
+  | succ n ih =>
+    simp only [List.replicate_succ, List.cons_append, run_next, nextsIt, ih]
+
+/-- a started, valid iterator stays valid under `Next` on the unchanged heap -/
+theorem nextsIt_started (hif : iterFacts = true) (h : Heap α) (n : Nat) (it : Iter) (hs : it.gen ≠ -1)
+    (hg : it.gen = h.gen) : (nextsIt h n it).gen = h.gen := by
+  induction n generalizing it with
+  | zero => exact hg
+  | succ n ih =>
+    simp only [nextsIt]
+    have : (iterNext h it).1.gen = it.gen := by
+      rw [iterNext_started hs hif, if_pos hg]; simp only [iterStep]; split <;> rfl
+    exact ih _ (by omega) (by omega)
+
+theorem nextsIt_fresh (hif : iterFacts = true) (h : Heap α) (h0 : 0 ≤ h.gen) (n : Nat) :
+    (nextsIt h (n + 1) iterate).gen = h.gen := by
+  simp only [nextsIt]
+  have hg : (iterNext h (iterate : Iter)).1.gen = h.gen := by
+    rw [iterNext_fresh hif]; simp only [iterStep]; split <;> rfl
+  exact nextsIt_started hif h n _ (by omega) hg
+
+theorem run_nexts_started (less : α → α → Bool) (hif : iterFacts = true) (h : Heap α) (n : Nat)
+    (it : Iter) (hs : it.gen ≠ -1) (hg : it.gen = h.gen) (hl : it.len = h.a.length)
+    (hp : it.pos ≤ it.len) :
+    run less h it (List.replicate n Ev.next) =
+      ((h.a.drop it.pos).take n).map (fun x => Obs.item (some x)) ++
+        List.replicate (n - (h.a.length - it.pos)) Obs.done := by
+  induction n generalizing it with
+  | zero => simp [run]
+  | succ n ih =>
+    simp only [List.replicate_succ, run_next]
+    rw [iterNext_started hs hif, if_pos hg]
+    simp only [iterStep]
+    by_cases hpos : it.pos < it.len
+    · simp only [hpos, if_true]
+      have hlt : it.pos < h.a.length := by omega
+      rw [ih { it with pos := it.pos + 1 } hs hg hl (by simp; omega)]
+      simp only [toObs, List.getElem?_eq_getElem hlt]
+      rw [List.drop_eq_getElem_cons hlt, List.take_succ_cons, List.map_cons, List.cons_append]
+      have e1 : n + 1 - (h.a.length - it.pos) = n - (h.a.length - (it.pos + 1)) := by omega
+      rw [e1]
+    · simp only [hpos, if_false, toObs]
+      rw [ih it hs hg hl hp]
+      have hnil : h.a.drop it.pos = [] := List.drop_eq_nil_of_le (by omega)
+      have e1 : h.a.length - it.pos = 0 := by omega
+      simp [hnil, e1, List.replicate_succ]
+
+/-- `n` consecutive `Next` calls of a fresh iterator on an unchanged heap: the first `n` elements in
+array order, then "exhausted" for every further call. -/
+theorem run_nexts_fresh (less : α → α → Bool) (hif : iterFacts = true) (h : Heap α) (h0 : 0 ≤ h.gen)
+    (n : Nat) :
+    run less h iterate (List.replicate n Ev.next) =
+      (h.a.take n).map (fun x => Obs.item (some x)) ++ List.replicate (n - h.a.length) Obs.done := by
+  cases n with
+  | zero => simp [run]
+  | succ n =>
+    rw [List.replicate_succ, run_fresh_first less hif h h0, ← List.replicate_succ]
+    have := run_nexts_started less hif h (n + 1) { gen := h.gen, pos := 0, len := h.a.length }
+      (by simp; omega) rfl rfl (by simp)
+    simpa using this
+
+/-! ## observations mapped through a function (`iterator.Map`) -/
+
+def mapObs {β : Type} (f : α → β) : Obs α → Obs β
+  | .item v => .item (v.map f)
+  | .done => .done
+  | .panic => .panic
+
+theorem snapshotOrPanic_map {β : Type} (f : α → β) (s : List α) (obs : List (Obs α))
+    (h : SnapshotOrPanic s obs) : SnapshotOrPanic (s.map f) (obs.map (mapObs f)) := by
+  induction obs generalizing s with
+  | nil => trivial
+  | cons o r ih =>
+    cases o with
+    | item v =>
+      obtain ⟨x, s', rfl, rfl, hr⟩ := h
+      exact ⟨f x, s'.map f, by simp, rfl, ih s' hr⟩
+    | done =>
+      obtain ⟨rfl, hr⟩ := h
+      exact ⟨rfl, ih [] hr⟩
+    | panic =>
+      intro o ho
+      obtain ⟨o', ho', rfl⟩ := List.mem_map.mp ho
+      rw [h o' ho']; rfl
+
+/-! ## `xheap.Heap`: histories of the wrapper's own methods -/
+
+inductive XEv (α : Type) where
+  | next
+  | push (x : α)
+  | pop
+  | grow
+  | shrink
+
+def XEv.toEv : XEv α → Ev α
+  | .next => .next
+  | .push x => .push x
+  | .pop => .pop
+  | .grow => .grow
+  | .shrink => .shrink
+
+/-- the heap after one call of a wrapper method (a panicking `Pop` leaves it unchanged) -/
+def applyX (less : α → α → Bool) (h : Heap α) : XEv α → Heap α
+  | .next => h
+  | .push x => X.push less h x
+  | .pop => match X.pop less h with
+    | some (h', _) => h'
+    | none => h
+  | .grow => X.grow h
+  | .shrink => X.shrink h
+
+/-- what every `Next` of the iterator from `xheap.Heap.Iterate` returns during a history of
+`xheap.Heap` calls -/
+def xrun (less : α → α → Bool) : Heap α → Iter → List (XEv α) → List (Obs α)
+  | _, _, [] => []
+  | h, it, .next :: es => toObs (X.iterNext h it).2 :: xrun less h (X.iterNext h it).1 es
+  | h, it, e :: es => xrun less (applyX less h e) it es
+
+/-- the contents at the iterator's first `Next` -/
+def xsnapshot (less : α → α → Bool) : Heap α → List (XEv α) → List α
+  | h, [] => h.a
+  | h, .next :: _ => h.a
+  | h, e :: es => xsnapshot less (applyX less h e) es
+
+theorem applyX_eq (hx : xFacts = true) (less : α → α → Bool) (h : Heap α) (e : XEv α) :
+    applyX less h e = applyEv less h e.toEv := by
+  simp only [xFacts, Bool.and_eq_true] at hx
+  obtain ⟨⟨⟨⟨h1, h2⟩, h3⟩, h4⟩, h5⟩ := hx
+  cases e with
+  | next => rfl
+  | push x => simp only [applyX, XEv.toEv, applyEv, xpush_eq h1]
+  | pop =>
+    simp only [applyX, XEv.toEv, applyEv, xpop_eq h2]
+    cases pop less h with
+    | none => rfl
+    | some r => rfl
+  | grow => simp only [applyX, XEv.toEv, applyEv, xgrow_eq h3]
+  | shrink => simp only [applyX, XEv.toEv, applyEv, xshrink_eq h4]
+
+theorem xrun_eq (hx : xFacts = true) (less : α → α → Bool) (evs : List (XEv α)) (h : Heap α) (it : Iter) :
+    xrun less h it evs = run less h it (evs.map XEv.toEv) := by
+  have h5 : xIterateForwards = true := by
+    simp only [xFacts, Bool.and_eq_true] at hx; exact hx.2
+  induction evs generalizing h it with
+  | nil => rfl
+  | cons e es ih =>
+    cases e with
+    | next => simp only [xrun, List.map_cons, XEv.toEv, run, xiterNext_eq h5, ih]
+    | push x => simp only [xrun, List.map_cons, XEv.toEv, run, ih, applyX_eq hx less h (.push x)]
+    | pop => simp only [xrun, List.map_cons, XEv.toEv, run, ih, applyX_eq hx less h .pop]
+    | grow => simp only [xrun, List.map_cons, XEv.toEv, run, ih, applyX_eq hx less h .grow]
+    | shrink => simp only [xrun, List.map_cons, XEv.toEv, run, ih, applyX_eq hx less h .shrink]
+
+theorem xsnapshot_eq (hx : xFacts = true) (less : α → α → Bool) (evs : List (XEv α)) (h : Heap α) :
+    xsnapshot less h evs = snapshot less h (evs.map XEv.toEv) := by
+  induction evs generalizing h with
+  | nil => rfl
+  | cons e es ih =>
+    cases e with
+    | next => rfl
+    | push x => simp only [xsnapshot, List.map_cons, XEv.toEv, snapshot, ih, applyX_eq hx less h (.push x)]
+    | pop => simp only [xsnapshot, List.map_cons, XEv.toEv, snapshot, ih, applyX_eq hx less h .pop]
+    | grow => simp only [xsnapshot, List.map_cons, XEv.toEv, snapshot, ih, applyX_eq hx less h .grow]
+    | shrink => simp only [xsnapshot, List.map_cons, XEv.toEv, snapshot, ih, applyX_eq hx less h .shrink]
+
+/-! ## `PriorityQueue`: histories of queue calls, transported to heap histories -/
+
+section PQ
+open Juniper.Model.PQ Juniper.Proofs.PQ
+variable {K P : Type} [DecidableEq K]
+
+inductive PQEv (K P : Type) where
+  | next
+  | update (k : K) (p : P)
+  | remove (k : K)
+  | pop
+  | grow
+
+def PQEv.isNext : PQEv K P → Bool
+  | .next => true
+  | _ => false
+
+/-- the queue after one call (a panicking call leaves it unchanged) -/
+def pqApply (less : P → P → Bool) (q : PQ K P) : PQEv K P → PQ K P
+  | .next => q
+  | .update k p => (update less q k p).getD q
+  | .remove k => (remove less q k).getD q
+  | .pop => ((Juniper.Model.PQ.pop less q).map (·.1)).getD q
+  | .grow => Juniper.Model.PQ.grow q
+
+/-- what every `Next` of the iterator from `PriorityQueue.Iterate` returns during a history -/
+def pqRun (less : P → P → Bool) : PQ K P → Iter → List (PQEv K P) → List (Obs K)
+  | _, _, [] => []
+  | q, it, .next :: es =>
+    toObs (Juniper.Model.PQ.iterNext q it).2 :: pqRun less q (Juniper.Model.PQ.iterNext q it).1 es
+  | q, it, e :: es => pqRun less (pqApply less q e) it es
+
+/-- the keys held at the iterator's first `Next`, in array order -/
+def pqSnapshot (less : P → P → Bool) : PQ K P → List (PQEv K P) → List K
+  | q, [] => keysOf q.h.a
+  | q, .next :: _ => keysOf q.h.a
+  | q, e :: es => pqSnapshot less (pqApply less q e) es
+
+theorem pqRun_next (less : P → P → Bool) (q : PQ K P) (it : Iter) (es : List (PQEv K P)) :
+    pqRun less q it (.next :: es) =
+      toObs (Juniper.Model.PQ.iterNext q it).2 :: pqRun less q (Juniper.Model.PQ.iterNext q it).1 es := by
+  simp only [pqRun]
+
+theorem pqRun_op (less : P → P → Bool) (q : PQ K P) (it : Iter) {e : PQEv K P} (he : e.isNext = false)
+    (es : List (PQEv K P)) : pqRun less q it (e :: es) = pqRun less (pqApply less q e) it es := by
+  cases e <;> first | (cases he; done) | simp only [pqRun]
+
+theorem pqSnapshot_op (less : P → P → Bool) (q : PQ K P) {e : PQEv K P} (he : e.isNext = false)
+    (es : List (PQEv K P)) : pqSnapshot less q (e :: es) = pqSnapshot less (pqApply less q e) es := by
+  cases e <;> first | (cases he; done) | simp only [pqSnapshot]
+
+theorem toObs_mapOut {α β : Type} (f : α → β) (o : IterOut α) : toObs (mapOut f o) = mapObs f (toObs o) := by
+  cases o <;> rfl
+
+/-- `PriorityQueue.Iterate`'s `Next` is the inner heap iterator's `Next` with the item mapped to
+its key (needs the generated fact about the body of `Iterate`) -/
+theorem pqIterNext_eq (hm : pqIterateMapsInnerToKey = true) (q : PQ K P) (it : Iter) :
+    Juniper.Model.PQ.iterNext q it =
+      ((iterNext q.h it).1, mapOut (·.1) (iterNext q.h it).2) := by
+  simp [Juniper.Model.PQ.iterNext, hm]
+
+/-- Whatever a queue call does to the inner heap is one heap call (or nothing): `Update` of an
+existing key is `UpdateAt`, of a new key `Push`; `Remove` of a present key is `RemoveAt`, of an absent
+key nothing; `Pop` is `Pop`; `Grow` is `Grow`. No invariant is needed for this. -/
+theorem pqApply_heap (less : P → P → Bool) (q : PQ K P) (e : PQEv K P) :
+    (pqApply less q e).h = q.h ∨
+      ∃ ev : Ev (KP K P), ev.isNext = false ∧ (pqApply less q e).h = applyEv (lessKP less) q.h ev := by
+  cases e with
+  | next => exact Or.inl rfl
+  | grow =>
+    exact Or.inr ⟨.grow, rfl, rfl⟩
+  | pop =>
+    simp only [pqApply, pop_eq]
+    cases hp : Juniper.Model.Heap.pop (lessKP less) q.h with
+    | none => exact Or.inl rfl
+    | some r =>
+      obtain ⟨h', x, n⟩ := r
+      exact Or.inr ⟨.pop, rfl, by simp [applyEv, hp]⟩
+  | update k p =>
+    simp only [pqApply, update_eq]
+    cases hi : mGet q.m k with
+    | none => exact Or.inr ⟨.push (k, p), rfl, by simp [applyEv]⟩
+    | some idx =>
+      by_cases hneg : idx < 0
+      · simp [hneg]
+      · simp only [hneg, if_false]
+        cases hu : updateAt (lessKP less) q.h idx.toNat (k, p) with
+        | none => exact Or.inl rfl
+        | some r =>
+          obtain ⟨h', n⟩ := r
+          exact Or.inr ⟨.updateAt idx.toNat (k, p), rfl, by simp [applyEv, hu]⟩
+  | remove k =>
+    simp only [pqApply, remove_eq]
+    cases hi : mGet q.m k with
+    | none => exact Or.inl rfl
+    | some idx =>
+      by_cases hneg : idx < 0
+      · simp [hneg]
+      · simp only [hneg, if_false]
+        cases hu : removeAt (lessKP less) q.h idx.toNat with
+        | none => exact Or.inl rfl
+        | some r =>
+          obtain ⟨h', n⟩ := r
+          exact Or.inr ⟨.removeAt idx.toNat, rfl, by simp [applyEv, hu]⟩
+
+/-- **Transport.** Every queue history seen by a `PriorityQueue` iterator is a heap history seen by
+the inner heap's iterator, with the observations and the snapshot mapped to keys. -/
+theorem pqRun_transport (hm : pqIterateMapsInnerToKey = true) (less : P → P → Bool)
+    (evs : List (PQEv K P)) (q : PQ K P) (it : Iter) :
+    ∃ hevs : List (Ev (KP K P)),
+      pqRun less q it evs = (run (lessKP less) q.h it hevs).map (mapObs (·.1)) ∧
+      pqSnapshot less q evs = keysOf (snapshot (lessKP less) q.h hevs) := by
+  induction evs generalizing q it with
+  | nil => exact ⟨[], rfl, rfl⟩
+  | cons e es ih =>
+    by_cases hn : e.isNext = true
+    · cases e <;> first | cases hn | skip
+      obtain ⟨hevs, h1, _⟩ := ih q (iterNext q.h it).1
+      refine ⟨.next :: hevs, ?_, rfl⟩
+      rw [pqRun_next, run_next, pqIterNext_eq hm]
+      simp only [List.map_cons, toObs_mapOut, h1]
+    · have hn' : e.isNext = false := by simpa using hn
+      rw [pqRun_op less q it hn', pqSnapshot_op less q hn']
+      obtain ⟨hevs, h1, h2⟩ := ih (pqApply less q e) it
+      rcases pqApply_heap less q e with hq | ⟨ev, hev, hq⟩
+      · rw [hq] at h1 h2
+        exact ⟨hevs, h1, h2⟩
+      · rw [hq] at h1 h2
+        exact ⟨ev :: hevs, by rw [run_op _ _ _ hev]; exact h1, by rw [snapshot_op _ _ hev]; exact h2⟩
+
+theorem pqRun_nexts (hm : pqIterateMapsInnerToKey = true) (less : P → P → Bool) (n : Nat) (q : PQ K P)
+    (it : Iter) :
+    pqRun less q it (List.replicate n PQEv.next) =
+      (run (lessKP less) q.h it (List.replicate n Ev.next)).map (mapObs (·.1)) := by
+  induction n generalizing it with
+  | zero => rfl
+  | succ n ih =>
+    simp only [List.replicate_succ, pqRun_next, run_next, pqIterNext_eq hm, List.map_cons, toObs_mapOut, ih]
+
+/-- a successful `Update` (existing or new key), `Remove` of a present key or `Pop` is a mutating
+call on the inner heap -/
+theorem pq_mutation_is_heap_mutation (less : P → P → Bool) {q q' : PQ K P} (hq : IndexInv q)
+    (hop : (∃ k p, update less q k p = some q') ∨ (∃ k p0, Holds q k p0 ∧ remove less q k = some q') ∨
+      (∃ k, Juniper.Model.PQ.pop less q = some (q', k))) :
+    ∃ e, Mutates q.h e ∧ q'.h = applyEv (lessKP less) q.h e := by
+  rcases hop with ⟨k, p, hu⟩ | ⟨k, p0, hk, hu⟩ | ⟨k, hu⟩
+  · by_cases hk : ∃ p0, Holds q k p0
+    · obtain ⟨p0, hp0⟩ := hk
+      obtain ⟨q'', he, _, _, i, y, notes, hi, hua⟩ := update_existing (less := less) hq p hp0
+      rw [hu] at he; cases he
+      have hil : i < q.h.a.length := by
+        rcases Nat.lt_or_ge i q.h.a.length with h | h
+        · exact h
+        · rw [List.getElem?_eq_none h] at hi; cases hi
+      exact ⟨.updateAt i (k, p), hil, by simp [applyEv, hua]⟩
+    · obtain ⟨q'', he, _, _, hpush⟩ := update_new (less := less) hq p (fun p0 h => hk ⟨p0, h⟩)
+      rw [hu] at he; cases he
+      exact ⟨.push (k, p), trivial, by simp [applyEv, hpush]⟩
+  · obtain ⟨q'', he, _, _, i, notes, hi, hua⟩ := remove_present (less := less) hq hk
+    rw [hu] at he; cases he
+    have hil : i < q.h.a.length := by
+      rcases Nat.lt_or_ge i q.h.a.length with h | h
+      · exact h
+      · rw [List.getElem?_eq_none h] at hi; cases hi
+    exact ⟨.removeAt i, hil, by simp [applyEv, hua]⟩
+  · have hne : q.h.a ≠ [] := by
+      intro e
+      rw [pop_eq, (pop_none_iff _ _).mpr e] at hu; cases hu
+    obtain ⟨q'', k', p0, notes, he, _, _, _, hua⟩ := pop_nonempty (less := less) hq hne
+    rw [hu] at he; cases he
+    exact ⟨.pop, hne, by simp [applyEv, hua]⟩
+
+end PQ
 
 end Juniper.Proofs.HeapIter
